@@ -298,6 +298,8 @@ class Ctx:
         if self.notes:
             ev["coverage"]["notes"] = self.notes
         evdir = EVIDENCE if self.repo == "/repo" else os.path.join(WORK, "evidence-drill")
+        if evdir == EVIDENCE and not re.match(r"^C\d\d$", self.pid):
+            evdir = os.path.join(EVIDENCE, "ext")    # extension specs (no listed property): evidence/ext/
         os.makedirs(evdir, exist_ok=True)   # drills against a scratch tree never touch evidence/
         with open(os.path.join(evdir, self.pid + ".json"), "w") as f:
             json.dump(ev, f, indent=1, sort_keys=True, default=str)
